@@ -9,6 +9,7 @@ import (
 	"time"
 
 	tls "github.com/refraction-networking/utls"
+	"github.com/refraction-networking/utls/zz_verif/refsrv"
 	"github.com/refraction-networking/utls/zz_verif/simnet"
 	"github.com/refraction-networking/utls/zz_verif/simrt"
 	"github.com/refraction-networking/utls/zz_verif/wire"
@@ -21,8 +22,8 @@ func init() {
 	Register("C27", &Info{
 		Run:   runC27,
 		Quick: 3000, Thor: 300000,
-		Rule: "a world = two connections made by MakeConnWithCompleteHandshake (one client, one server) from the same drawn version (1.0-1.2), suite (every documented TLS<=1.2 suite incl. RC4, 3DES, the legacy ChaCha20 code points and the EnableWeakCiphers suites, by run index; plus drawn unsupported ids: TLS 1.3 suites, GREASE, unknown), master secret and randoms, joined by a simulated link; both ends write drawn sizes concurrently and read what the other wrote, scheduled at every transport and lock operation; optional bit flip on the wire; oracle: unsupported id => nil on both ends; otherwise each side reads exactly what the other wrote (prefix + error after a flip); non-trivial = both ends non-nil and data sent; distinct = (suite, version, sizes, fault)",
-		Assumptions: []string{"EnableWeakCiphers is process-global: the C27 worker enables it at start"},
+		Rule: "a world = two connections made by MakeConnWithCompleteHandshake (one client, one server) from the same drawn version (1.0-1.2), suite (every documented TLS<=1.2 suite incl. RC4, 3DES, the legacy ChaCha20 code points and the EnableWeakCiphers suites, by run index; plus drawn unsupported ids: TLS 1.3 suites, GREASE, unknown), master secret and randoms, joined by a simulated link; both ends write drawn sizes concurrently (optionally followed at once by CloseWrite, so that close_notify travels right behind the data) and read what the other wrote with a drawn buffer size (16 B .. 32 kB), to the end of the stream in the CloseWrite case, scheduled at every transport and lock operation; optional bit flip on the wire; oracle: unsupported id => nil on both ends; otherwise each side reads exactly what the other wrote (prefix + error after a flip); non-trivial = both ends non-nil and data sent; distinct = (suite, version, sizes, fault)",
+		Assumptions: []string{"EnableWeakCiphers is process-global: a C27 worker process enables it before its first world; every second worker process (VERIF_PROCMODE=1, recorded in the replay file) forges connections before the opt-in call"},
 		Real:        []string{"utls MakeConnWithCompleteHandshake, Conn record layer from /repo (both ends)"},
 		Stub:        []string{"transport, scheduler, crypto/rand"},
 	})
@@ -59,7 +60,18 @@ func buildForgeCases() {
 
 func runC27(c *Ctx) {
 	ch := c.Ch
-	c27Once.Do(func() { tls.EnableWeakCiphers(); buildForgeCases() })
+	c27Once.Do(func() {
+		if ProcMode == 1 {
+			// half of the worker processes have already forged connections (suite lookups, including
+			// one for a suite that is not enabled yet) before the opt-in call
+			pl := simnet.NewLink("probe")
+			z := make([]byte, 48)
+			tls.MakeConnWithCompleteHandshake(pl.A, tls.VersionTLS12, 0xc02f, z, z[:32], z[:32], true)
+			tls.MakeConnWithCompleteHandshake(pl.A, tls.VersionTLS12, 0x003d, z, z[:32], z[:32], true)
+		}
+		tls.EnableWeakCiphers()
+		buildForgeCases()
+	})
 	unsupported := c.Run%7 == 6
 	var suite, ver uint16
 	if unsupported {
@@ -103,9 +115,14 @@ func runC27(c *Ctx) {
 		l.AB.FlipAt = int64(ch.Pick(atot, "flip-off"))
 		l.AB.FlipMask = 0x10
 	}
+	rbuf := []int{4096, 4096, 16, 700, 32768}[ch.Pick(5, "read-size")]
+	if atot+btot > 40000 && rbuf < 700 {
+		rbuf = 700
+	}
+	closeWrite := ch.Bool(40, "close-write-after-data") // close_notify travels right behind the last data record
 	ca := tls.MakeConnWithCompleteHandshake(l.A, ver, suite, master, cr, sr, true)
 	cb := tls.MakeConnWithCompleteHandshake(l.B, ver, suite, master, cr, sr, false)
-	c.R.Class = fmt.Sprintf("suite=%04x v=%x a=%v b=%v flip=%v", suite, ver, lens(aw), lens(bw), flip)
+	c.R.Class = fmt.Sprintf("suite=%04x v=%x a=%v b=%v flip=%v rbuf=%d closewrite=%v mode=%d", suite, ver, lens(aw), lens(bw), flip, rbuf, closeWrite, ProcMode)
 	if unsupported {
 		c.R.NonTrivial = true
 		if ca != nil || cb != nil {
@@ -124,8 +141,8 @@ func runC27(c *Ctx) {
 	var aread, bread []byte
 	var aerr, berr, awerr, bwerr error
 	rd := func(conn *tls.Conn, want int, dst *[]byte, e *error) {
-		buf := make([]byte, 4096)
-		for len(*dst) < want {
+		buf := make([]byte, rbuf)
+		for len(*dst) < want || closeWrite {
 			n, err := conn.Read(buf)
 			*dst = append(*dst, buf[:n]...)
 			if err != nil {
@@ -139,6 +156,11 @@ func runC27(c *Ctx) {
 			if _, err := conn.Write(p); err != nil {
 				*e = err
 				return
+			}
+		}
+		if closeWrite {
+			if err := conn.CloseWrite(); err != nil {
+				*e = err
 			}
 		}
 	}
@@ -174,7 +196,7 @@ func runC27(c *Ctx) {
 		if len(bread) != atot || len(aread) != btot || aerr != nil && aerr != io.EOF || berr != nil && berr != io.EOF || awerr != nil || bwerr != nil {
 			c.Violate(fmt.Sprintf("forged-connection-does-not-interoperate suite=%04x v=%x", suite, ver), "%s: b read %d/%d err=%v, a read %d/%d err=%v, write errors %v %v", c.R.Class, len(bread), atot, berr, len(aread), btot, aerr, awerr, bwerr)
 		}
-	} else if len(bread) == atot && berr == nil && atot > 0 {
+	} else if len(bread) == atot && (berr == nil || berr == io.EOF) && atot > 0 {
 		c.Violate(fmt.Sprintf("forged-connection-accepts-tampered-record suite=%04x v=%x", suite, ver), "%s: all %d bytes read without error after a bit flip", c.R.Class, atot)
 	}
 	if c.R.Run%300 == 0 {
@@ -200,14 +222,42 @@ func runC28(c *Ctx) {
 	if sc.ver < 0x0304 {
 		scfg.CipherSuites = []uint16{sc.suite}
 	}
-	c.R.Class = fmt.Sprintf("v=%x suite=%04x peer=%s rounds=%d n=%d plen=%d", sc.ver, sc.suite, peerName(peer), rounds, n, plen)
-	var ks []byte
+	// two phases with the same (position, length) query; between them optionally a TLS 1.3 key update
+	// initiated by the reference server (the sending key changes, the sequence number restarts), or a
+	// jump of the sequence numbers on both ends to a position that cannot be reached record by record
+	phases := 1 + ch.Pick(2, "phases")
+	between := "none"
+	var jumpTo int64
+	if phases == 2 {
+		switch ch.Pick(3, "between") {
+		case 1:
+			if sc.ver == 0x0304 {
+				between = "key-update"
+				peer = PeerRef
+			}
+		case 2:
+			between = "seq-jump"
+			peer = PeerUTLS
+			jumpTo = []int64{1<<32 - 2, 1 << 32, 0x12300000007, 1 << 56}[ch.Pick(4, "jump-to")]
+		}
+	}
+	var rcfg *refsrv.Config
+	if peer == PeerRef {
+		rcfg = refCfg(auth)
+		rcfg.MaxVersion = sc.ver
+	}
+	c.R.Class = fmt.Sprintf("v=%x suite=%04x peer=%s rounds=%d n=%d plen=%d phases=%d between=%s/%x", sc.ver, sc.suite, peerName(peer), rounds, n, plen, phases, between, jumpTo)
+	var ks [2][]byte
 	var ksErr error
-	marked := false
-	var after []byte
+	markPending := false
+	var tapAts []int
 	var l *simnet.Link
-	sp := &ConnSpec{ID: tls.HelloCustom, Spec: singleSuiteSpec(sc.ver, sc.suite), CCfg: &tls.Config{ServerName: "example.test", RootCAs: Roots()}, Peer: peer, SCfg: scfg, StdCfg: stdcfg,
+	var o *ConnOutcome
+	sp := &ConnSpec{ID: tls.HelloCustom, Spec: singleSuiteSpec(sc.ver, sc.suite), CCfg: &tls.Config{ServerName: "example.test", RootCAs: Roots()}, Peer: peer, SCfg: scfg, StdCfg: stdcfg, RefCfg: rcfg,
 		Setup: func(ll *simnet.Link) { l = ll; ll.Frag = ch.Bool(30, "frag") }}
+	if between == "key-update" {
+		sp.ServerKeyUpdate = func(i int) (bool, bool) { return i == rounds, true }
+	}
 	var ioErr error
 	sp.After = func(u *tls.UConn) {
 		echo := func(b []byte) bool {
@@ -222,28 +272,42 @@ func runC28(c *Ctx) {
 			}
 			return true
 		}
-		for i := 0; i < rounds; i++ {
-			if !echo([]byte(fmt.Sprintf("round-%d", i))) {
+		for ph := 0; ph < phases; ph++ {
+			if ph == 1 && between == "seq-jump" && o != nil && o.UServer != nil {
+				// both ends idle: the server waits for the next record
+				tls.VerifSetSeq(u.Conn, jumpTo, -1)
+				tls.VerifSetSeq(o.UServer, -1, jumpTo)
+				c.Fault("seq-jump", 1)
+			}
+			for i := 0; i < rounds && !(ph == 1 && between == "seq-jump"); i++ {
+				if !echo([]byte(fmt.Sprintf("round-%d", i))) {
+					return
+				}
+			}
+			ks[ph], ksErr = u.GetOutKeystream(n)
+			if ksErr != nil {
+				return
+			}
+			markPending = true
+			if !echo(plain) {
 				return
 			}
 		}
-		ks, ksErr = u.GetOutKeystream(n)
-		marked = true
-		if !echo(plain) {
-			return
-		}
-		after = []byte("after-keystream")
-		echo(after)
+		echo([]byte("after-keystream"))
 	}
-	// remember the tap position at which the record following GetOutKeystream starts
-	tapAt := -1
+	// remember the tap position at which the record following each GetOutKeystream starts
 	sp.OnClientWrite = func(ll *simnet.Link, b []byte) {
-		if marked && tapAt < 0 {
-			tapAt = len(ll.AB.Sent)
+		if markPending {
+			markPending = false
+			tapAts = append(tapAts, len(ll.AB.Sent))
 		}
 	}
-	o := RunConn(c, w, sp)
+	sp.Out = &o
+	o = RunConn(c, w, sp)
 	c.Finish(w, true)
+	if o.KeyUpdates > 0 {
+		c.Fault("key-update", o.KeyUpdates)
+	}
 	if c.R.Violation != nil {
 		return
 	}
@@ -259,60 +323,67 @@ func runC28(c *Ctx) {
 		c.Violate("keystream-error", "%s: %v", c.R.Class, ksErr)
 		return
 	}
-	if len(ks) < n {
-		// (the implementation returns n bytes plus the AEAD tag of the all-zero plaintext; only
-		// the first n bytes are specified)
-		c.Violate("keystream-too-short", "%s: got %d bytes", c.R.Class, len(ks))
-		return
-	}
 	if ioErr != nil {
-		c.Violate(fmt.Sprintf("peer-rejected-after-keystream v=%x suite=%04x", sc.ver, sc.suite), "%s: %v (server: %v)", c.R.Class, ioErr, o.SIOErr)
+		c.Violate(fmt.Sprintf("peer-rejected-after-keystream v=%x suite=%04x between=%s", sc.ver, sc.suite, between), "%s: %v (server: %v)", c.R.Class, ioErr, o.SIOErr)
 		return
 	}
-	// find the record on the tap
-	if tapAt < 0 {
-		c.R.Harness = "no client write after GetOutKeystream"
+	if len(tapAts) != phases {
+		c.R.Harness = fmt.Sprintf("%d marks for %d phases", len(tapAts), phases)
 		return
 	}
-	recs, _, err := wire.ParseRecords(l.AB.Sent[tapAt:])
-	if err != nil || len(recs) == 0 {
-		c.R.Harness = fmt.Sprintf("cannot parse the tap at %d: %v", tapAt, err)
-		return
-	}
-	rec := recs[0]
-	if rec.Type != 23 {
-		c.R.Harness = fmt.Sprintf("record at the mark has type %d", rec.Type)
-		return
-	}
-	ct := rec.Payload
-	if sc.ver == 0x0303 && (sc.suite == 0xc02b || sc.suite == 0xc02f || sc.suite == 0xc02c || sc.suite == 0xc030 || sc.suite == 0x009c || sc.suite == 0x009d) {
-		ct = ct[8:] // explicit nonce
-	}
-	m := n
-	if plen < m {
-		m = plen
-	}
-	// the record holds at most its own plaintext (dynamic record sizing may cut the write):
-	// ciphertext minus the 16-byte tag and, in TLS 1.3, the inner content-type byte
-	inRec := len(ct) - 16
-	if sc.ver == 0x0304 {
-		inRec--
-	}
-	if inRec < m {
-		m = inRec
-	}
-	if m < 0 {
-		m = 0
-	}
-	c.R.NonTrivial = m > 0 || n == 0
-	for i := 0; i < m; i++ {
-		if ks[i]^plain[i] != ct[i] {
-			c.Violate(fmt.Sprintf("keystream-mismatch v=%x suite=%04x", sc.ver, sc.suite), "%s: byte %d: keystream %02x ^ plain %02x != cipher %02x", c.R.Class, i, ks[i], plain[i], ct[i])
+	for ph := 0; ph < phases; ph++ {
+		if len(ks[ph]) < n {
+			// (the implementation returns n bytes plus the AEAD tag of the all-zero plaintext; only
+			// the first n bytes are specified)
+			c.Violate("keystream-too-short", "%s: got %d bytes", c.R.Class, len(ks[ph]))
 			return
+		}
+		recs, _, err := wire.ParseRecords(l.AB.Sent[tapAts[ph]:])
+		if err != nil && len(recs) == 0 {
+			c.R.Harness = fmt.Sprintf("cannot parse the tap at %d: %v", tapAts[ph], err)
+			return
+		}
+		if len(recs) == 0 {
+			c.R.Harness = "no record at the mark"
+			return
+		}
+		rec := recs[0]
+		if rec.Type != 23 {
+			c.R.Harness = fmt.Sprintf("record at the mark has type %d", rec.Type)
+			return
+		}
+		ct := rec.Payload
+		if sc.ver == 0x0303 && (sc.suite == 0xc02b || sc.suite == 0xc02f || sc.suite == 0xc02c || sc.suite == 0xc030 || sc.suite == 0x009c || sc.suite == 0x009d) {
+			ct = ct[8:] // explicit nonce
+		}
+		m := n
+		if plen < m {
+			m = plen
+		}
+		// the record holds at most its own plaintext (dynamic record sizing may cut the write):
+		// ciphertext minus the 16-byte tag and, in TLS 1.3, the inner content-type byte
+		inRec := len(ct) - 16
+		if sc.ver == 0x0304 {
+			inRec--
+		}
+		if inRec < m {
+			m = inRec
+		}
+		if m < 0 {
+			m = 0
+		}
+		if m > 0 || n == 0 {
+			c.R.NonTrivial = true
+		}
+		for i := 0; i < m; i++ {
+			if ks[ph][i]^plain[i] != ct[i] {
+				c.Violate(fmt.Sprintf("keystream-mismatch v=%x suite=%04x phase=%d between=%s", sc.ver, sc.suite, ph, between), "%s: phase %d byte %d: keystream %02x ^ plain %02x != cipher %02x", c.R.Class, ph, i, ks[ph][i], plain[i], ct[i])
+				return
+			}
 		}
 	}
 	if c.R.Run%200 == 0 {
-		c.R.Sample = map[string]any{"version": sc.ver, "suite": sc.suite, "n": n, "position": rounds, "plaintext_len": plen, "compared": m}
+		c.R.Sample = map[string]any{"version": sc.ver, "suite": sc.suite, "n": n, "position": rounds, "plaintext_len": plen, "phases": phases, "between": between}
 	}
 }
 
